@@ -4,6 +4,8 @@
 //!                                "!<id> <reason>" when the independent oracle finds the property failing
 mod lanes;
 mod ownber;
+mod owndn;
+mod ownfilter;
 mod rng;
 mod text;
 
